@@ -152,6 +152,13 @@ func (ex *Exec) loopName(li *loopInfo, c Clause, i int, phase string) string {
 func (ex *Exec) loopEnv(cur *State) *Env {
 	env := ex.fnEnv(cur, ex.entry)
 	env.localsOK = true
+	// inside the function a parameter name denotes its local copy (which the body may reassign), not the entry value;
+	// old(p) still gives the entry value because the copy is initialised from it
+	for a := range cur.locals {
+		if _, isParam := ex.params[a.Comment]; isParam {
+			delete(env.vars, a.Comment)
+		}
+	}
 	return env
 }
 
@@ -325,6 +332,23 @@ func (ex *Exec) runBody(st *State, header *ssa.BasicBlock) {
 	ex.run(st, header, nil)
 }
 
+// allocBefore orders local cells deterministically by block index, then by position in the block: among the cells that
+// dominate a loop header the last one is the closest to the loop (hidden range cells have no source position).
+func allocBefore(a, b *ssa.Alloc) bool {
+	if a.Block() != b.Block() {
+		return a.Block().Index < b.Block().Index
+	}
+	for _, in := range a.Block().Instrs {
+		if in == ssa.Instruction(a) {
+			return true
+		}
+		if in == ssa.Instruction(b) {
+			return false
+		}
+	}
+	return false
+}
+
 // localByName resolves a source-level local variable name to its current value.
 func (env *Env) localByName(name string) (TV, bool) {
 	var cands []*ssa.Alloc
@@ -344,7 +368,7 @@ func (env *Env) localByName(name string) (TV, bool) {
 		if len(hc) == 0 {
 			return TV{}, false
 		}
-		sort.Slice(hc, func(i, j int) bool { return hc[i].Pos() < hc[j].Pos() })
+		sort.Slice(hc, func(i, j int) bool { return allocBefore(hc[i], hc[j]) })
 		pick := hc[len(hc)-1]
 		if env.loopHeader != nil {
 			for _, c := range hc {
@@ -370,7 +394,7 @@ func (env *Env) localByName(name string) (TV, bool) {
 	}
 	pick := cands[0]
 	if len(cands) > 1 {
-		sort.Slice(cands, func(i, j int) bool { return cands[i].Pos() < cands[j].Pos() })
+		sort.Slice(cands, func(i, j int) bool { return allocBefore(cands[i], cands[j]) })
 		pick = nil
 		if env.loopHeader != nil {
 			// prefer the cell declared outside (dominating) the loop
